@@ -94,6 +94,26 @@ ADHOC = {
          "attrs": {"field_modulus": 11,
                    "FQ12_MODULUS_COEFFS": [5, 0, 0, 0, 0, 0, 4, 0, 0, 0, 0, 0]}},
     ],
+    # towers built the way the library builds its own: a family FQP base carrying
+    # the prime, and FQ2 / FQ12 deriving from (generic FQ2/FQ12, family FQP)
+    "T7r": [
+        {"name": "T7r_FQ", "base": "ref.FQ", "attrs": {"field_modulus": 7}},
+        {"name": "T7r_FQP", "base": "ref.FQP", "attrs": {"field_modulus": 7}},
+        {"name": "T7r_FQ2", "bases": ["ref.FQ2", "adhoc.T7r_FQP"],
+         "attrs": {"field_modulus": 7, "FQ2_MODULUS_COEFFS": [1, 0]}},
+        {"name": "T7r_FQ12", "bases": ["ref.FQ12", "adhoc.T7r_FQP"],
+         "attrs": {"field_modulus": 7,
+                   "FQ12_MODULUS_COEFFS": [2, 0, 0, 0, 0, 0, -2, 0, 0, 0, 0, 0]}},
+    ],
+    "T13o": [
+        {"name": "T13o_FQ", "base": "opt.FQ", "attrs": {"field_modulus": 13}},
+        {"name": "T13o_FQP", "base": "opt.FQP", "attrs": {"field_modulus": 13}},
+        {"name": "T13o_FQ2", "bases": ["opt.FQ2", "adhoc.T13o_FQP"],
+         "attrs": {"field_modulus": 13, "FQ2_MODULUS_COEFFS": [2, 0]}},
+        {"name": "T13o_FQ12", "bases": ["opt.FQ12", "adhoc.T13o_FQP"],
+         "attrs": {"field_modulus": 13,
+                   "FQ12_MODULUS_COEFFS": [2, 0, 0, 0, 0, 0, -2, 0, 0, 0, 0, 0]}},
+    ],
     # same modulus as the library class, plain subclass (inherits everything)
     "Sub": [
         {"name": "Sub_FQ", "base": "optimized_bls12_381_FQ", "attrs": {}},
@@ -106,6 +126,7 @@ ADHOC_INFO = {
     "S11o": dict(opt=True, p=11), "S19r": dict(opt=False, p=19),
     "Sub": dict(opt=True, p=BLS_P),
     "C7o": dict(opt=True, p=5), "C13r": dict(opt=False, p=11),
+    "T7r": dict(opt=False, p=7), "T13o": dict(opt=True, p=13),
 }
 ADHOC_REQUIRES = {"C7o": ["F7o"], "C13r": ["F13r"]}
 
@@ -240,6 +261,22 @@ def build_templates():
     for fam in FAMS:
         t("generic.%s_FQP" % fam, ["c", "%s_FQP" % fam, ""], ["intlist2", "intlist2"],
           None, 0.01, "generic")
+        t("generic.%s_FQP(deg3)" % fam, ["c", "%s_FQP" % fam, ""], ["intlist3", "intlist3"],
+          None, 0.01, "generic", w=0.6)
+    for fam in ("T7r", "T13o"):
+        # the family's generic FQP used directly with another modulus polynomial,
+        # as a producer of values (mul/inv on them) - before or after FQ2/FQ12
+        ty = "fld:%s:FQP" % fam
+        g = "field:%s" % fam
+        t("%s.FQP.ctor(deg2)" % fam, ["c", "adhoc.%s_FQP" % fam, ""], ["intlist2", "intlist2"],
+          ty, 0.01, g, w=1.5)
+        t("%s.FQP.ctor(deg3)" % fam, ["c", "adhoc.%s_FQP" % fam, ""], ["intlist3", "intlist3"],
+          ty, 0.01, g, w=1.5)
+        t("%s.FQP.mul(x,int)" % fam, ["o", "mul"], [ty, "intv:" + fam], ty, 0.01, g)
+        t("%s.FQP.neg" % fam, ["o", "neg"], [ty], ty, 0.01, g, w=0.5)
+        t("%s.FQP.mul" % fam, ["o", "mul"], [ty, ty], ty, 0.02, g, w=1.5)
+        t("%s.FQP.inv" % fam, ["call", "inv"], [ty], ty, 0.1, g)
+        t("%s.FQP.pow" % fam, ["o", "pow"], [ty, "scalar16"], ty, 0.2, g)
     t("utils.prime_field_inv", ["f", "py_ecc.utils", "prime_field_inv"], ["int", "modulus"],
       None, 0.01, "utils")
     t("utils.deg", ["f", "py_ecc.utils", "deg"], ["intlist"], None, 0.003, "utils")
@@ -520,6 +557,7 @@ class Gen:
         self.adhoc_used = set()
         self.enabled_fams = list(FAMS)
         self.dyn_p = {}
+        self.distinct = False     # soak: literals are unique random values, not pool values
 
     def fresh_reg(self):
         self.nreg += 1
@@ -548,6 +586,8 @@ class Gen:
 
     def lit_int(self):
         r = self.rng
+        if self.distinct:
+            return r.getrandbits(r.choice([40, 160, 256]))
         return r.choice([0, 1, 2, 3, -1, 5, 7, 255, 256, 2**64, 2**255 - 19, BLS_P, BN_P, -BN_P,
                          r.getrandbits(16), r.getrandbits(64), r.getrandbits(256),
                          r.getrandbits(400), -r.getrandbits(100)])
@@ -555,6 +595,8 @@ class Gen:
     def lit_intv(self, fam):
         r = self.rng
         p = self.dyn_p.get(fam) or fam_info(fam)["p"]
+        if self.distinct and p > 10 ** 6:
+            return r.randrange(p)
         x = r.random()
         if x < 0.45:
             return r.choice([0, 1, 2, 3, 4, 5, 7, p - 1, p - 2, (p - 1) // 2, (p + 1) // 2])
@@ -583,6 +625,8 @@ class Gen:
     def lit_scalar(self, fam):
         r = self.rng
         order = fam_info(fam)["r"]
+        if self.distinct:
+            return r.getrandbits(r.choice([48, 64, 96]))
         x = r.random()
         if x < 0.3:
             return r.choice([0, 1, 2, 3, 5, 7, 10, 100])
@@ -596,6 +640,9 @@ class Gen:
 
     def lit_bytes(self, kind):
         r = self.rng
+        if self.distinct and kind != "dst":
+            n = 32 if kind in ("b32", "ikm") else r.choice([8, 32, 32, 48, 64])
+            return bytes(r.getrandbits(8) for _ in range(n))
         if kind == "msg":
             if r.random() < 0.75:
                 return bytes(r.choice(MSGS))
@@ -646,6 +693,8 @@ class Gen:
         if ty == "uint":
             return lit(abs(self.lit_int()))
         if ty == "uint256":
+            if self.distinct:
+                return lit(r.getrandbits(256))
             return lit(r.choice([0, 1, 2, SECP_N - 1, SECP_P - 1, r.getrandbits(256)]))
         if ty == "modulus":
             return lit(r.choice([7, 13, BN_P, BLS_P, SECP_N, SECP_P, BLS_R, 2, 1]))
@@ -683,7 +732,8 @@ class Gen:
             return lit(r.choice([0, 2**383, 2**383 + 2**382, 2**384 - 1, r.getrandbits(384),
                                  2**383 + 2**381 + 5]))
         if ty.startswith("intlist"):
-            n = {"intlist2": 2, "intlist12": 12}.get(ty) or r.choice([1, 2, 3, 4, 12, 13])
+            n = {"intlist2": 2, "intlist3": 3, "intlist12": 12}.get(ty) or \
+                r.choice([1, 2, 3, 4, 12, 13])
             vals = [r.choice([0, 0, 1, 2, 3, -1, 5, r.getrandbits(8)]) for _ in range(n)]
             if ty == "intlist" and r.random() < 0.5:
                 vals[-1] = vals[-1] or 1
@@ -714,6 +764,15 @@ class Gen:
         if ty == "sk":
             return self.arg_sk(b)
         # register-backed types
+        if ty.startswith("pt:") and r.random() < 0.04:
+            # an argument that is not a curve point: the constant's own x twice
+            # (error paths of the callers that validate, garbage-in for the others)
+            _, fam, grp = ty.split(":")
+            m = FAMS[fam]["mod"]
+            parts = [const(m, grp, 0), const(m, grp, 0)]
+            if FAMS[fam]["opt"]:
+                parts.append(const(m, grp, 2))
+            return {"tuple": parts}
         regs = b.avail(ty)
         cands = self.consts_for(ty)
         x = r.random()
@@ -733,6 +792,8 @@ class Gen:
 
     def arg_sk(self, b):
         r = self.rng
+        if self.distinct:
+            return lit(1 + r.getrandbits(250))
         x = r.random()
         regs = b.avail("sk")
         if regs and x < 0.25:
@@ -748,6 +809,9 @@ class Gen:
         regs = b.avail(ty)
         if regs and r.random() < 0.45:
             return {"reg": r.choice(regs)}
+        if self.distinct and kind == "pk":
+            op = b.emit("G2Basic.SkToPk", args=[lit(1 + r.getrandbits(250))])
+            return {"reg": op["out"]}
         if kind == "pk":
             x = r.random()
             if x < 0.7:
@@ -840,6 +904,8 @@ class Gen:
                 k = "%s.%s" % (fam, lvl)
                 if lvl == "FQ":
                     b.emit(k + ".ctor(int)")
+                elif lvl == "FQP":
+                    b.emit(k + (".ctor(deg2)" if r.random() < 0.6 else ".ctor(deg3)"))
                 else:
                     b.emit(k + ".ctor(ints)")
                 return True
@@ -856,6 +922,8 @@ class Gen:
                         b.emit(fam + ".cast_point_to_fq12")
                     else:
                         b.emit(k + ".double", args=[gconst])
+                elif self.distinct:
+                    b.emit(k + ".multiply", args=[gconst, lit(2 + r.getrandbits(40))])
                 elif x < 0.4:
                     b.emit(k + ".multiply(small)",
                            args=[gconst, lit(r.choice([2, 3, 5, 7, 11, 65537]))])
@@ -1082,7 +1150,7 @@ class Scenarios(Gen):
     def new_spec(self, scenario):
         self.nreg = 0
         r = self.rng
-        knobs = {"gc": "enabled" if r.random() < 0.1 else "disabled",
+        knobs = {"gc": "enabled" if r.random() < 0.25 else "disabled",
                  "recursion_limit_after_import": 3000 if r.random() < 0.12 else None}
         return {"format": 1, "property": "C20", "scenario": scenario, "adhoc_classes": [],
                 "knobs": knobs, "prelude": [], "tasks": [],
@@ -1295,10 +1363,14 @@ class Scenarios(Gen):
         if tpl.gen is None and op1.get("args") and len(op1["args"]) == len(tpl.args) \
                 and not any(isinstance(a, str) and a.startswith("*") for a in tpl.args):
             npos = len(op1["args"])
-            for pos in r.sample(range(npos), min(npos, 1 if tpl.cost > 50 else 2)):
+            for pos in r.sample(range(npos), npos if (tpl.cost <= 120 and npos <= 4) else 1):
                 varied = dict(op1)
                 varied["args"] = list(op1["args"])
-                varied["args"][pos] = self.arg(b, tpl.args[pos])
+                for _ in range(6):                      # really another value
+                    cand = self.arg(b, tpl.args[pos])
+                    if cand != op1["args"][pos]:
+                        break
+                varied["args"][pos] = cand
                 if "out" in varied:
                     varied["out"] = b.new_reg(tpl.out)
                 b.ops.append(varied)
@@ -1613,6 +1685,78 @@ class Scenarios(Gen):
         return spec
 
 
+    def soak_candidates(self, max_cost):
+        out = []
+        for t in TEMPLATES:
+            if t.gen is not None or not t.args or t.cost > max_cost:
+                continue
+            if t.group in ("lazy", "generic"):
+                continue
+            if t.group.startswith("field:") and t.group[6:] not in FAMS:
+                continue
+            if t.kind.endswith((".repr", ".eq", ".ne", ".lt", ".le", ".gt", ".ge", ".mod",
+                                ".coeffs", ".int", ".is_inf")):
+                continue
+            out.append(t)
+        return out
+
+    def scn_soak(self, n=300, max_cost=12.0, nkinds=3, kinds=None):
+        """a long single-caller history: a few functions are called hundreds of
+        times with *distinct* arguments (so that a bounded cache fills, overflows
+        and wraps), earlier calls are repeated now and then, and the first calls
+        are repeated at the end (hand-written LRU / ring buffers, call counters
+        with periodic clean-up, tables extended on demand)"""
+        r = self.rng
+        spec = self.new_spec("soak")
+        spec["monitor"] = "off"
+        spec["knobs"] = {"gc": r.choice(["enabled", "disabled"]),
+                         "recursion_limit_after_import": None}
+        cands = self.soak_candidates(max_cost)
+        # one function per group, expensive ones preferred (they are what gets cached)
+        picked = []
+        if kinds:
+            # aimed at given kinds (second phase of a check)
+            picked = [BY_KIND[k] for k in kinds if k in BY_KIND and BY_KIND[k].gen is None
+                      and BY_KIND[k].args]
+            for t in picked:
+                self.enable_adhoc(spec, self.adhoc_of_template(t))
+        groups = sorted({t.group for t in cands})
+        for g in r.sample(groups, min(nkinds, len(groups))) if not picked else ():
+            ts = [t for t in cands if t.group == g]
+            picked.append(r.choices(ts, [0.2 + t.cost ** 0.5 for t in ts])[0])
+        if not picked:
+            picked = [r.choice(cands)]
+        spec["focus"] = "+".join(t.kind for t in picked)
+        self.distinct = True
+        ops = []
+        consumers = {t.kind: [] for t in picked}
+        budget_ms = 9000.0
+        per = max(40, min(n, int(budget_ms / max(0.5, sum(t.cost for t in picked)))))
+        for i in range(per):
+            for t in picked:
+                bi = Builder(self)
+                op = bi.emit(t)
+                ops += bi.ops
+                consumers[t.kind].append(op)
+                if r.random() < 0.2 and len(consumers[t.kind]) > 2:
+                    # a hit on an earlier entry (recently used / re-ordered)
+                    prev = r.choice(consumers[t.kind][-40:])
+                    again = dict(prev)
+                    if "out" in again:
+                        again["out"] = self.fresh_reg()
+                    ops.append(again)
+        for t in picked:                      # after the history: the early calls again
+            first = consumers[t.kind]
+            for prev in first[:12] + r.sample(first, min(12, len(first))):
+                again = dict(prev)
+                if "out" in again:
+                    again["out"] = self.fresh_reg()
+                ops.append(again)
+        self.distinct = False
+        spec["tasks"] = [ops]
+        return spec
+
+
 def sweep_templates(max_cost=1e9):
     return [t for t in TEMPLATES if t.cost <= max_cost]
 
@@ -1671,8 +1815,21 @@ class ColdScenarios(Scenarios):
         names = r.sample(SUBPACKAGE_NAMES, r.randint(1, 3))
         if cold_first and not any(n in cold_first for n in names):
             names[0] = r.choice(cold_first)
+        if r.random() < 0.6:
+            # use the field classes (py_ecc.fields only) and the generic bases
+            # before any curve package has been imported
+            pre = [t for t in TEMPLATES if t.cost <= 2 and
+                   (t.group in ("generic", "utils") or
+                    (t.group.startswith("field:") and
+                     (t.group[6:] in FAMS or
+                      any(a["name"].startswith(t.group[6:] + "_")
+                          for a in spec["adhoc_classes"]))))]
+            self.fill(b, pre, r.randint(1, 5), 100)
         for name in names:
-            b.emit("lazy.%s.%s" % (r.choice(["getattr", "import", "from"]), name))
+            how = r.choice(["getattr", "import", "from"])
+            if faults and name in cold_first and not firsts:
+                how = r.choice(["getattr", "from"])      # through the package's own loader
+            b.emit("lazy.%s.%s" % (how, name))
             if name in cold_first:
                 firsts.append(len(b.ops) - 1)
             b.emit("lazy.%s.%s" % (r.choice(["getattr", "import", "from"]), name))
@@ -1688,7 +1845,7 @@ class ColdScenarios(Scenarios):
         self.fill(b, gen, len(b.ops) + r.randint(1, 3), 600)
         spec["tasks"] = [b.ops]
         if faults and firsts:
-            k = r.choice(firsts)
+            k = firsts[0] if r.random() < 0.7 else r.choice(firsts)
             spec["faults"].append({"kind": "async_exc", "task": 0, "op": k, "frac": r.random(),
                                    "exc": r.choice(["SimInterrupt", "KeyboardInterrupt",
                                                     "MemoryError", "RecursionError",
